@@ -427,8 +427,15 @@ def _cmp_coords(name, impl, model, exact=False):
     return None
 
 
+def _near(q, x, ulps=4):
+    """x is the exact rational q up to a few units in the last place (one or two roundings in
+    whatever order the code performs them; the property does not pin the last bit)"""
+    fq = float(q)
+    return abs(float(x) - fq) <= ulps * math.ulp(fq)
+
+
 def _cmp_step(name, impl, model):
-    if not round_once_eq(frac(model), float(frac(impl))):
+    if not _near(frac(model), float(frac(impl))):
         return _m(f"{name} axis: advertised step attribute differs from the model", f"{float(frac(impl))!r}, model {model} = {float(frac(model))!r}")
     return None
 
@@ -447,12 +454,16 @@ def _cmp_time_array(sr, io, mo, first_round_once=True):
     msg = _cmp_coords("time", a["times"], m["times"], exact=_pow2(sr))
     if msg:
         return msg
-    if first_round_once and m["times"] and not round_once_eq(frac(m["times"][0]), float(frac(a["times"][0]))):
-        return _m("first time stamp is not the correctly rounded offset/samplerate", f"{float(frac(a['times'][0]))!r} vs {m['times'][0]}")
+    if first_round_once and m["times"] and not _near(frac(m["times"][0]), float(frac(a["times"][0]))):
+        return _m("first time stamp is not offset/samplerate (to the last bits)", f"{float(frac(a['times'][0]))!r} vs {m['times'][0]}")
     return _cmp_step("time", a["step"], m["step"])
 
 
 def _compare_load_clip(inp, io, mo):
+    if _is_raise(mo) and mo["raise"] == "seek" and not _is_raise(io) and frac(inp["s"]) >= 0:
+        # a clip starting beyond the end of the file: libsndfile cannot seek there (model `seek`); code that
+        # returns the zero-filled clip instead satisfies the property - the monitor alone judged it
+        return None
     if _is_raise(io) or _is_raise(mo):
         if not _clip_safe(inp) and _is_raise(io) != _is_raise(mo):
             return None
@@ -473,6 +484,10 @@ def _compare_recording(inp, io, mo):
     d = frac(inp["duration"]) if "duration" in inp else frac(_tm_recording_of(inp)["duration"])
     if not (_pow2(sr) or _frac_half_safe(d * sr)):
         return None
+    if _is_raise(mo) and not _is_raise(io):
+        # a stored duration that contradicts the file: xarray refuses the axis (model `shape`); code that sizes
+        # the axis from the data instead satisfies the property - the monitor alone judged it
+        return None
     if _is_raise(io) or _is_raise(mo):
         return _cmp_raise(io, mo)
     return _cmp_time_array(sr, io, mo, first_round_once=False)
@@ -482,8 +497,9 @@ def _cmp_spec(io, mo):
     a, m = io["val"], mo["val"]
     if a["len"] != m["len"]:
         return _m("number of audio samples differs from the model", f"{a['len']} samples, model {m['len']}")
+    fits = m["nperseg"] <= m["len"]     # otherwise (known finding C15-3) the steps are left to the monitor
     for ax in ("time", "freq"):
-        msg = _cmp_coords(ax, a[ax]["coords"], m[ax]["coords"]) or _cmp_step(ax, a[ax]["step"], m[ax]["step"])
+        msg = _cmp_coords(ax, a[ax]["coords"], m[ax]["coords"]) or (fits and _cmp_step(ax, a[ax]["step"], m[ax]["step"])) or None
         if msg:
             return msg
     sh = io["aux"]["shape"]
@@ -620,12 +636,12 @@ def _holds_load_clip(ctx, inp, io):
     off = round(t0 * sr)
     if safe and off != math.floor(s * sr):
         return _m("time axis does not start at sample floor(start x samplerate)", f"starts at sample {off}, floor = {math.floor(s * sr)}")
-    if not round_once_eq(Fraction(off, sr), float(t0)):
+    if not _near(Fraction(off, sr), float(t0)):
         return _m("first time stamp is not on a sample boundary", f"{float(t0)!r}")
     msg = _axis_ok(ctx, v["times"][0], {"coords": v["times"], "step": v["step"]}, "clip time")
     if msg:
         return msg
-    if not round_once_eq(Fraction(1, sr), float(frac(v["step"]))):
+    if not _near(Fraction(1, sr), float(frac(v["step"]))):
         return _m("advertised step of the clip is not 1/samplerate", f"{float(frac(v['step']))!r}, samplerate {sr}")
     # frame i and its time stamp are those of index off + i of the loaded recording, zero past its end
     rdata, rtimes = _recording_data(inp)
@@ -816,7 +832,7 @@ def _gen_clip_times(rng, base, grid):
     boundaries, around the end of the file, zero and sub-sample lengths"""
     sr = _sr(base)
     n = base["file"]["n"]
-    kind = rng.choice(["inside", "inside", "straddle-end", "at-end", "zero", "subsample", "whole", "tail"])
+    kind = rng.choice(["inside", "inside", "straddle-end", "at-end", "zero", "subsample", "whole", "tail", "long"])
     fr = rng.choice([Fraction(0), Fraction(0), Fraction(1, 2), Fraction(1, 4), Fraction(3, 4), Fraction(rng.randint(1, 15), 16)])
     fr2 = rng.choice([Fraction(0), Fraction(0), Fraction(1, 2), Fraction(1, 3), Fraction(rng.randint(1, 15), 16)])
     length = rng.randint(1, 120)
@@ -830,6 +846,10 @@ def _gen_clip_times(rng, base, grid):
         u0, length, fr2 = Fraction(0), n + rng.choice([0, 0, 1, 5]), Fraction(0)
     elif kind == "tail":
         u0 = Fraction(max(0, n - rng.randint(0, 3)))
+    elif kind == "long":
+        # a long clip that does not start at the beginning of the file (more than 1000 frames where the file allows)
+        u0 = rng.randint(1, max(1, n // 2)) + fr
+        length = rng.randint(max(1, n // 2), n + 5)
     else:
         u0 = rng.randint(0, n) + fr
     if kind == "zero":
@@ -908,9 +928,14 @@ def _recording_cases(rng, count):
         fsr = rng.choice(FILE_RATES)
         te = int(rng.choice(EXPANSIONS))
         sr = fsr * te
-        kind = rng.choice(["exact", "exact", "float", "short", "long", "half-", "half+"])
+        kind = rng.choice(["exact", "exact", "float", "short", "long", "half-", "half+", "half="])
+        if kind == "half=":
+            # stored duration exactly half a sample longer than the file (exact at power-of-two rates): the
+            # trailing-point rule `>= stop - step/2` still drops the extra point
+            fsr, te = rng.choice([8192, 16384, 65536, 262144]), rng.choice([1, 2])
+            sr = fsr * te
         x = {"exact": Fraction(n), "float": None, "short": n - Fraction(3, 8), "long": n + Fraction(3, 8),
-             "half-": n - Fraction(5, 8), "half+": n + Fraction(5, 8)}[kind]
+             "half-": n - Fraction(5, 8), "half+": n + Fraction(5, 8), "half=": n + Fraction(1, 2)}[kind]
         d = Fraction((n / fsr) / te) if x is None else Fraction(float(x / sr))
         out.append({"file": _gen_file(rng, n), "fsr": fsr, "sr": sr, "duration": rat(d)})
     return out
